@@ -329,6 +329,26 @@ pub fn sanitize(cfg: &mut Config) {
             }
         }
     }
+    // ... and one call below ~2e10 multiply-adds (tens of seconds): a call cannot be interrupted, and the hang limit
+    // must stay far above anything a valid call costs
+    for _ in 0..40 {
+        let m = cfg.max_rel.max(1.0);
+        let c = call_cost(cfg, m).max(call_cost(cfg, 1.0 / m));
+        if c <= 2.0e10 || cfg.chunk <= 1 {
+            break;
+        }
+        if cfg.channels > 2 {
+            cfg.channels = (cfg.channels / 2).max(2);
+            if let Some(mk) = &mut cfg.mask {
+                mk.truncate(cfg.channels);
+            }
+        } else {
+            cfg.chunk = (cfg.chunk / 2).max(1);
+            if cfg.sub_chunks > cfg.chunk {
+                cfg.sub_chunks = 1;
+            }
+        }
+    }
 }
 
 /// "Wild" swarm: one dimension of a configuration far outside the usual range (large but valid parameters).
